@@ -472,6 +472,8 @@ class IArr:
         """Apply a basic index; returns ('scalar', vidx) or ('view', IArr)."""
         if not isinstance(idx, tuple):
             idx = (idx,)
+        if any(i is None for i in idx):
+            return "view", self._newaxis(idx)
         # expand Ellipsis
         if any(i is Ellipsis for i in idx):
             k = idx.index(Ellipsis)
@@ -507,6 +509,34 @@ class IArr:
             else:
                 axes.append(ax)
         return "view", IArr(self.store, axes, newshape, quat=self.quat, cplx=self.cplx, hcell=self.hcell)
+
+    def _newaxis(self, idx):
+        """x[..., None, ...]: index without the None entries, then insert length-1 axes (copy semantics)."""
+        rest = tuple(i for i in idx if i is not None)
+        kind, base = self._index(rest) if rest else ("view", self)
+        if kind != "view":
+            raise OutOfReach("newaxis on a scalar cell")
+        # positions of the new axes in the result
+        pos, out_rank, k = [], 0, 0
+        for i in idx:
+            if i is None:
+                pos.append(out_rank)
+                out_rank += 1
+            elif isinstance(i, slice) or i is Ellipsis:
+                out_rank += 1
+        if any(i is Ellipsis for i in idx):
+            raise OutOfReach("newaxis together with Ellipsis")
+        out_rank = len(base.vshape) + len(pos)
+        shape, src = [], []
+        it = iter(base.vshape)
+        for a in range(out_rank):
+            if a in pos:
+                shape.append(1)
+            else:
+                shape.append(next(it))
+                src.append(a)
+        snap = base._snapshot()
+        return IArr.from_fn(shape, lambda vi: snap(tuple(vi[a] for a in src)), quat=base.quat, cplx=base.cplx, hcell=base.hcell)
 
     def _has_list(self, idx):
         t = idx if isinstance(idx, tuple) else (idx,)
